@@ -57,7 +57,7 @@ seeded changes and which check catches which in §11.
   | U5 | `columns::wrap_columns` | the complete layout of C20 relative to whatever `wrap` returns; no panic; theorem: for well-formed texts whose lines fit, every row is exactly gaps + columns + remainder wide | C20, C04 |
   | U6 | `core::Word::from`, `core::break_words` | lossless, spaces-only whitespace, cached width; dispatch is lossless / identity for narrow words; words that hold no space stay so (`tails_ok`) | C11, C12, C01, C02 |
   | U8 | `indentation::indent` | equals the spec function of C19 | C19, C04 |
-  | U9 | `indentation::dedent` | removes exactly the margin the statement defines; theorems over that postcondition: idempotent (outside KF4's input class), and `dedent(indent(s, p)) == dedent(s)` (texts without carriage returns) | C18, C04 |
+  | U9 | `indentation::dedent` | removes exactly the margin the statement defines; theorems over that postcondition: idempotent (outside KF4's input class), and `dedent(indent(s, p)) == dedent(s)` (texts without carriage returns, whitespace prefixes without line break: outside KF8's class) | C18, C04 |
   | U10 | `fill::fill_inplace` | same length; bytes change only `' '` → `'\\n'`, and exactly at the run ends first-fit makes of each line's ASCII words; `from_utf8(..).unwrap()` cannot fail | C17, C04 |
   | U11 | `wrap::wrap`, `wrap_single_line`, `wrap_single_line_slow_path` | every line starts with its indent; **for the whole text** line k is `indent_k ++ text[a_k..b_k] ++ (nothing \| "-")` with slices in order, on char boundaries, separated only by spaces and at most one line ending; **no slice ends in a space** (ASCII-space separator, built-in splitters); the line breaker gets the widths of the indents actually rendered (and a zero-width first fragment when the first line is the narrower one); >= 1 line per paragraph, earlier lines untouched; the shortcut's exact result, and (first-fit, built-in splitters) the slow path gives that same line when entered under the shortcut's condition; **`wrap` computes the paragraph-wise function `wrap_fn(split(text, E), options)`** (each of the three functions: the appended lines are a function of paragraph, options and "does it start the output"), with the relational clauses of C09 (independence of paragraphs, `wrap(b)` for empty indents, never fewer lines than paragraphs, LF↔CRLF) and C08 (what follows the indent depends on the indents' widths and emptiness only) as theorems over it | C08, C01, C02, C09, C05, C04 |
   | U12 | `fill::fill_slow_path`, `fill::fill` | both equal `wrap`'s lines joined by the line ending — shortcut included | C09, C05, C04 |
@@ -76,21 +76,22 @@ seeded changes and which check catches which in §11.
   | K3 | `Word::width()` (`usize as f64`) and f64 `+`, `>` | `a + b < 2^53` implies `a as f64 + b as f64 == (a + b) as f64`; `a <= b` implies `!(a as f64 > b as f64)`; `0 as f64 == 0.0`; 64-bit `usize` — the A16 axioms of U17, all `usize` operands (Kani, loop-free, bit-precise) | C05 |
 
 * **Genuine defects found and repaired** (five `fix:` commits in `/repo`, §5): F1 (C02), F2 (C08), F5 (C20/C04) were
-  convicted by Verus obligations on the pinned text *and* by BEC; F3 (C11) and F4 (C18) by BEC. Seven further findings
-  (KF1–KF7) are recorded as open known findings with reasons (§5).
+  convicted by Verus obligations on the pinned text *and* by BEC; F3 (C11) and F4 (C18) by BEC. Eight further findings
+  (KF1–KF8) are recorded as open known findings with reasons (§5).
 * **What stays bounded** (per property; details in §4):
-  - C01: pointer identity of borrowed lines; "a slice never ends in a space except after a forced break";
+  - C01: pointer identity of borrowed lines; "a slice never ends in a space except after a forced break" for the Unicode separator and for
+    custom splitters (for the ASCII-space separator with the built-in splitters it is proved);
   - C02: the text-level statement (display width of each rendered line, with its single-fragment exception);
   - C03: optimality proper (needs real arithmetic and total monotonicity; that smawk's table holds *minima*);
   - C04: "optimal-fit never reports an overflow error" (float magnitudes), the inside of `unicode-linebreak` / `unicode-width`, the
-    `Box<dyn Iterator>` dispatch of `find_words`, the thin constructors;
+    call through a `WordSeparator::Custom` function pointer, the thin constructors;
   - C05: the first sentence (a paragraph whose display width fits is one line) and the optimal-fit / custom-splitter cases of the second;
   - C13 end to end, C14, the round trips of C15 / C16, the agreement of `fill_inplace` with `wrap` (C17):
     relational statements that compare runs on *different* inputs through more than the paragraph structure.
   C09's and C08's relational clauses, by contrast, are theorems over `wrap`'s functional postcondition (U11, §2.9), and C18's two
   corollaries are theorems over `dedent`'s (and `indent`'s) postconditions (U9, §2.9).
-* **Robustness of the machinery** (§8, §11): 175 seeded property-breaking changes that compile and pass the upstream suite
-  (5 reverted fixes + 170 from independent sub-agents in twelve waves) are all reported; 25 + 12 behaviour-preserving refactors, 16 small edits and 137 renames of locals
+* **Robustness of the machinery** (§8, §11): 178 seeded property-breaking changes that compile and pass the upstream suite
+  (5 reverted fixes + 173 from independent sub-agents in thirteen waves) are all reported; 25 + 12 behaviour-preserving refactors, 16 small edits and 137 renames of locals
   raise no alarm; every unit verifies under 8 different SMT seeds; the unchanged tree passes all 20 checks in both tiers.
 """)
 w(s1.rstrip()+"\n")
@@ -101,7 +102,7 @@ w("""## 2. Architecture
   check                  ./check <Cxx> [--tier quick|thorough] [--seed N] | --replay <file>     (exit 0 / 1 VIOLATION / 2 undecided)
   setup.sh               builds bec in both feature flavours, warms Verus up
   MANIFEST.json          generated by tools/mkmanifest.py from tools/props.py
-  known_findings.json    fixed: F1–F5 (five `fix:` commits in /repo); open: KF1–KF7
+  known_findings.json    fixed: F1–F5 (five `fix:` commits in /repo); open: KF1–KF8
   contracts/u*.vrs       side-cars, one per unit (table in §0)
   contracts/prelude/     shared pieces (`//@include`): Options / LineEnding extracted from /repo, specs of std functions (`std_more.vrs`), ANSI spec (`skip_len`, `dw`, `strip`),
                          the chunk model of well-formed texts with the additivity of display width over them (`ansi_chunks.vrs`), UTF-8 position lemmas (`fresh.vrs`), ASCII-boundary lemmas, `lines()` byte model
@@ -197,7 +198,8 @@ discharged relative to that link (this is how every multi-unit proof here works;
 are of this kind), and (b) a clause may fail on the input class of an *open known finding* — there the pinned code demonstrably
 violates the letter of the statement and the check says so (`KNOWN-FINDING`) — provided it is proved on the complement (C20's width
 sentence: proved for texts that do not end inside an escape sequence, false otherwise, KF7; C18's idempotence: proved for every text in which
-no line-break-terminated line with text ends in a carriage return — `kf4_free`, the exact complement of KF4's class —, false otherwise);
+no line-break-terminated line with text ends in a carriage return — `kf4_free`, the exact complement of KF4's class —, false otherwise; C18's second
+corollary: proved for every whitespace prefix without `'\\n'`, false for every prefix with one, KF8);
 `other` for mixtures (the explanation names the proved and the bounded parts); `exploration` for bounded-only.
 
 ### 2.8 How units are linked
@@ -223,6 +225,7 @@ restatement and callee would show up there within scope.
 | U11 all five word-stage callees: `r == f(args)` with `f` uninterpreted (`fw_spec`, `sw_spec`, `bw_spec`, `wf_spec`, `wa_spec`) | U13/U20, U14, U6/U15, U6, U17/U1/U2 | not a clause of the providers: determinism of safe, state-free Rust (A17); for U13, U20, U16+U14, U15 and U1 the proved contracts determine the result uniquely; `wa_spec(..).len() >= 1` restates C06 |
 | U2 `vx_online_column_minima`: call shape, result shape, `2·size − 3 <= usize::MAX` | U24 `online_column_minima` (generic `T`; U2 uses `T = f64`) | same clauses: `call_ok` ≡ the antecedent of U2's `requires`, `table_shape` ≡ `minima_ok` |
 | U14 `vx_split_points_iter`: increasing char boundaries inside the word | U16 `split_points` | proved for the two built-in splitters; `Custom`: A15 |
+| U9 theorem `c18_dedent_of_indent`: `indent(s, p)` is `indent_spec(s, p)` | U8 `indent` (`res@ == indent_spec(s@, prefix@)`) | the same spec function: both units include `prelude/indent_spec.vrs` (and the split / join lemmas of `prelude/split_chars.vrs`) |
 | U12 `wrap_shortcut_line` | U11 `wrap` (clause tagged C05 C09) | same predicate `wrap_shortcut_applies`, same conclusion, in bytes |
 | U15, U20 `vx_skip_ansi_ci` | U3 `skip_ansi_escape_sequence` (any iterator obeying the iterator laws) | instance at `Map<&mut CharIndices, _>` (A4: `map`/`by_ref` only project / borrow) |
 | U20 `strip_ansi_escape_sequences`; `display_width` in U5, U6, U11, U14, U18 | U3 | same postcondition; consumers keep `dw` abstract |
@@ -268,7 +271,9 @@ results the contract allows for `s` and for the first result: they are equal —
 KF4's input class, carriage returns allowed; without that hypothesis the proof fails at exactly the step KF4 exploits; `c18_dedent_idempotent` is the
 CR-free special case; key lemma `second_margin_empty` — a common margin of
 the output lines, appended to the removed margin, would be a longer common margin of the input) and `c18_dedent_of_indent` (key lemma
-`margin_of_mapped`: the margin of the indented lines is the prefix followed by the margin of the lines; for `s` and `p` without carriage returns, which is what the statement claims). All three carry a vacuity probe.
+`margin_of_mapped`: the margin of the indented lines is the prefix followed by the margin of the lines; for every `s` without carriage returns, as the statement says, and every whitespace `p` without
+`'\\n'` — carriage returns in `p` are allowed: the trimmed prefix ends in no whitespace and `'\\r'` is whitespace (second std axiom, `cr_is_ws`), so no line of
+the indented text ends in a carriage return and `str::lines` strips nothing from it; with a `'\\n'` in `p` the statement is false of the code, known finding KF8). All three carry a vacuity probe.
 The bounded contract's KF4 class is the negation of `kf4_free`, computed on the input: a failure of idempotence outside it would contradict the theorem and is reported as a violation.
 
 The same device does not reach C14 (idempotence of `fill`), C13, C15/C16's round trips or C17's agreement with `wrap`: they
@@ -355,6 +360,12 @@ seeds the sampled inputs differ, nothing is recorded, and the class tag alone de
   is false of the pinned code otherwise. Found when that theorem was written: its hypothesis `wf` is exactly what the bounded alphabet had
   silently assumed, so the opener of an OSC sequence was added to it. Not repaired: no padding rule can fix a row whose cell leaves a
   sequence open (the terminal swallows the padding too).
+* **KF8 (C18).** A whitespace prefix that contains a line break: `'\\n'` is a whitespace character, so "for every whitespace prefix p"
+  includes it, but `dedent(indent("a", "\\n")) == "\\na"` while `dedent("a") == "a"`. `indent` writes the prefix in front of every line, which
+  with a line break in it adds lines, and `dedent` keeps the number of lines. Found by an independent review of the hypotheses of U9's theorem
+  `c18_dedent_of_indent` (it needs `!p.contains('\\n')`), confirmed on the real crate by the bounded contract (prefixes `"\\n"`, `" \\n "`). For every
+  whitespace prefix *without* `'\\n'` — carriage returns and non-ASCII whitespace included — the corollary is proved. Not repaired: `indent` has no
+  error path, and dropping the line break from the prefix silently is not a patch a maintainer would obviously accept.
 
 ## 6. Applicability statement
 
@@ -446,8 +457,8 @@ the property states.
 
 ## 11. Seeded changes and what catches them
 
-`seeded/` holds 175 changes that compile, pass the upstream suite in both feature sets, and break a property: the 5 reverted
-fixes and 170 produced by independent sub-agents given **only** the property text and a scratch worktree:
+`seeded/` holds 178 changes that compile, pass the upstream suite in both feature sets, and break a property: the 5 reverted
+fixes and 173 produced by independent sub-agents given **only** the property text and a scratch worktree:
 
 * waves 1–2 (40): two per property;
 * wave 3 (20): cooperating edits, indirect helpers, wrong fast paths;
@@ -462,16 +473,20 @@ fixes and 170 produced by independent sub-agents given **only** the property tex
   rewrites not equivalent — all reported as the checks stood: where the restructuring leaves the Verus unit undecided, the bounded
   contracts of the same property decide;
 * wave 11 (6): more of that kind for C03, C04, C10, C13, C14, C16 — three misses on first contact, see the table;
-* wave 12 (7): aimed at the clauses that are decided by bounded enumeration only (C01's trailing-space sentence, C02 at text level,
-  C05's first sentence, C13 end to end, C15's round trip, C17's agreement with `wrap`, C18's corollaries) — six reported as the
+* wave 12 (7): aimed at the clauses that were, at that time, decided by bounded enumeration only (C01's trailing-space sentence, C02 at text level,
+  C05's first sentence, C13 end to end, C15's round trip, C17's agreement with `wrap`, C18's corollaries — the first and the last have since
+  been proved) — six reported as the
   checks stood (two of them by a Verus obligation all the same: U15's `break_apart` postcondition, U22's conversion contract), one
-  miss, see the table.
+  miss, see the table;
+* wave 13 (3): aimed at what was proved last (C01's trailing-space chain outside `wrap.rs`, the `find_words` dispatcher, `indent` on unusual
+  line structures) — all reported as the checks stood. A fourth agent, asked to break C18's corollaries, produced exactly the patch that
+  reverts fix F4 (seed `revert_F4`); it is not counted twice.
 
 Each change was confirmed by `tools/seedverify.sh` (patch applies; suite passes in both feature sets; its demonstration fails with
 the patch and passes without). `tools/seedtest.py` applies each to `/repo`, runs the checks of the properties it breaks, and undoes
 it; `seeded/RESULTS.json` is its output and **`seeded/RESULTS.md` the full table** (seed, property, files changed, Verus obligations
-failed, BEC contracts failed, undecided units, verdict). After every change to the checks the whole set is run again (last: 199 of
-199 (change, property) pairs reported; `tools/seedpar.py` does the same on scratch copies, several at a time, without touching `/repo`).
+failed, BEC contracts failed, undecided units, verdict). After every change to the checks the whole set is run again (last: 202 of
+202 (change, property) pairs reported; `tools/seedpar.py` does the same on scratch copies, several at a time, without touching `/repo`).
 
 Misses on first contact (and one relabelled seed) and what was strengthened (never by weakening a check):
 
@@ -496,7 +511,7 @@ Misses on first contact (and one relabelled seed) and what was strengthened (nev
 | 12 | w12_C15_A (`impl From<&Options>` rebuilt through the setters, forgetting `line_ending`: `fill(t, &options)` silently uses LF) | U22 proves that conversion copies every option and rejects the change — but U22 was only part of the checks of C02, C04, C08, C09; the bounded contracts pass `Options` by value, which bypasses the conversion | U22 is now part of the check of every property whose entry point takes `Into<Options>` (C01 C05 C13 C15 C16 C20 as well); the C15 / C16 bounded contracts pass `&Options` |
 
 **Verus on its own** (`tools/seedverus.py`, `seeded/VERUS.json`: each change applied to a scratch copy, only the Verus units run):
-a Verus obligation rejects 71 of the 175 changes (1 of the 20 disguised as refactors); the others end *undecided* in Verus (a new construct without a spec, a
+a Verus obligation rejects 71 of the 178 changes (1 of the 20 disguised as refactors); the others end *undecided* in Verus (a new construct without a spec, a
 loop rewritten so that a rewrite rule no longer applies, a lost anchor) or touch code whose contract does not see them
 (`ch_width`'s table — decided by the exhaustive scalar enumeration and Kani K1). Three things raised that share (from 29 to 42 of the first 77 changes):
 (i) specs for the std functions such edits typically reach for (`str::trim_end` / `trim_start` / `trim`, `char::is_ascii`,
